@@ -131,6 +131,15 @@ def check_limit_adapter(res, facts, trait, head, tname, inner_rem, chunk_m, adv_
                 end = rng[2][0]
                 if is_min_of(end, len_of(isch), lim):
                     return []
+        # `bytes.get(..limit).unwrap_or(bytes)`: the first `limit` bytes when there are that many, else all of them
+        if isinstance(e0, tuple) and e0[0] == "call" and e0[1].rsplit("::", 1)[-1] == "unwrap_or" and len(e0[2]) == 2:
+            g, dflt = strip_refs(canon(e0[2][0])), strip_refs(canon(e0[2][1]))
+            isch = ucall_on(chunk_m, "inner")
+            if isinstance(g, tuple) and g[0] == "call" and g[1].rsplit("::", 1)[-1] in ("get", "get_mut") and len(g[2]) == 2 \
+                    and isch(strip_refs(g[2][0])) and strip_refs(g[2][0]) == dflt \
+                    and isinstance(g[2][1], tuple) and g[2][1][0] == "agg" and "RangeTo" in str(g[2][1][1]) and "Inclusive" not in str(g[2][1][1]) \
+                    and lim(g[2][1][2][0]):
+                return []
         return ["chunk is not the inner chunk truncated to min(chunk.len(), self.limit): %s" % fmt_expr(e)]
     decide("%s::%s" % (tname, chunk_m), method_body(facts, trait, head, chunk_m), chunk_probs, "inner.%s()[..min(len, limit)]" % chunk_m)
 
@@ -322,6 +331,11 @@ def check_chain(res, facts, trait, rem_m, has_m, touching):
                     break
                 how.add(w)
             if bad_path is not None:
+                alt = chain_paths_in_views(facts, mb, bi, fn["name"], rem_m, has_m, touching)
+                if alt:
+                    res.ok(key, mb.loc(bi), alt + " (path-sensitive, helpers inlined)", nontrivial=True)
+                    continue
+            if bad_path is not None:
                 res.bad(key, mb.loc(bi), "`b.%s` is reached on a path where `a` is neither exhausted nor fully accounted for (path bb%s): "
                                          "the result is not a prefix of a ++ b" % (fn["name"], "->bb".join(str(x) for x in bad_path)))
             else:
@@ -337,6 +351,65 @@ def check_chain(res, facts, trait, rem_m, has_m, touching):
                 if not okx:
                     res.bad(key + "|operand", mb.loc(bi), "count passed to b is not `cnt - a.remaining()`")
     return n_b_calls
+
+
+def chain_paths_in_views(facts, mb, bi, name, rem_m, has_m, touching):
+    """fallback for a Chain method whose decision logic moved into a helper (`split_advance(a_rem, cnt) -> (Option, Option)`): in
+    the view with crate-local helpers inlined, every *feasible* path to the call on `b` (switches on values built earlier on the
+    same path take their one edge) must carry a witness, evaluated along that path: a.remaining() == 0 / !a.has_remaining(),
+    or an earlier a.advance(x) whose operand is a.remaining() on that path; and a count handed to b after consuming a must
+    be cnt - a.remaining() on that path. Returns a description, or None."""
+    from .flow import PathExprBuilder, feasible_paths_to, path_relations, refuted_by_variants
+    from .inline import views
+    a_f, b_f = self_field("a"), self_field("b")
+    is_a_rem = ucall_on(rem_m, "a")
+    is_a_has = ucall_on(has_m, "a")
+    for v in views(facts, mb):
+        sites = [x for x in range(len(v.blocks)) if x == bi]
+        if not sites:
+            continue
+        paths = feasible_paths_to(v, bi, limit=2000)
+        if not paths:
+            continue
+        hows = set()
+        ok = True
+        for path in paths:
+            pe = PathExprBuilder(v, facts, path, inline=False)
+            w = None
+            rels_ = path_relations(v, facts, path)
+            if refuted_by_variants(rels_):
+                continue
+            for r in rels_:
+                if r[0] == "eq" and ((is_a_rem(r[1]) and canon(r[2]) == ("const", 0)) or (is_a_rem(r[2]) and canon(r[1]) == ("const", 0))):
+                    w = "a.%s() == 0" % rem_m
+                if r[0] == "truth" and is_a_has(r[1]) and r[2] == 0:
+                    w = "!a.%s()" % has_m
+            consumed = False
+            for pb in path[:-1]:
+                t = v.blocks[pb]["term"]
+                if t["k"] != "call":
+                    continue
+                cfn = callee(t)
+                if cfn is None or cfn["name"] not in touching or len(t["args"]) < 2:
+                    continue
+                loc = (pb, len(v.blocks[pb]["stmts"]))
+                recv = strip_refs(canon(pe.operand(t["args"][0], loc)))
+                if a_f(recv) and is_a_rem(canon(pe.operand(t["args"][1], loc))):
+                    w = "a.%s(a.%s()) consumed the whole of a" % (cfn["name"], rem_m)
+                    consumed = True
+            if w is None:
+                ok = False
+                break
+            if consumed and name in touching:
+                t = v.blocks[bi]["term"]
+                x = canon(pe.operand(t["args"][1], (bi, len(v.blocks[bi]["stmts"])))) if len(t["args"]) > 1 else None
+                if not (isinstance(x, tuple) and x[0] == "bin" and x[1] == "Sub" and x[2] == ("param", 2) and is_a_rem(x[3])):
+                    ok = False
+                    break
+            hows.add(w)
+        if ok and hows:
+            return "; ".join(sorted(hows))
+    return None
 
 
 def mentions_dst(e):
